@@ -1,6 +1,828 @@
-//! C15 — placeholder until the check is written
+//! C15 — any input text is answered with a result or a diagnostic: no abort, no hang.
+//!
+//! Bounded-exhaustive instead of sampled: (a) all short strings over a 40-character alphabet to the
+//! three library parsers and (through prompt sessions of the real binary) to the print reader, all
+//! short byte strings as source files; (b) all token sequences up to a length; (c) the complete 1-edit
+//! neighbourhood of seed programs; (d) deterministic pathological families at sizes 10 .. 10^5.
+//! In-process cases run in child processes of this harness (chunks of the enumerated space), so that
+//! a stack overflow or abort is a verdict about one case (found by bisection), not a harness crash.
+
 use super::common::*;
-pub fn run(_tier: &Tier) -> i32 {
-    eprintln!("C15: not built yet");
-    2
+use crate::cli::*;
+use crate::findings::*;
+use crate::pipe::*;
+use emulator_8086_lib as lib;
+use lib::{DataParser, Interpreter, Preprocessor, PreprocessorContext, PreprocessorOutput, VM};
+use rayon::prelude::*;
+use serde_json::json;
+use std::io::Read;
+use std::panic::{catch_unwind, AssertUnwindSafe};
+use std::process::{Command, Stdio};
+use std::sync::atomic::{AtomicU64, Ordering};
+use std::time::{Duration, Instant};
+
+const ALPHA40: &[u8] = b"amov1059xb\"[](),:;-><_ \n\0{}@#'.+*/\\=!?%&|";
+
+fn repo_dir() -> String {
+    std::env::var("VERIF_REPO").unwrap_or_else(|_| "/repo".to_string())
+}
+
+fn alpha_chars() -> Vec<char> {
+    let mut v: Vec<char> = ALPHA40.iter().map(|b| *b as char).collect();
+    v.push('\u{e9}');
+    v.push('\u{ff}');
+    v.push('\t');
+    v
+}
+
+fn tokens() -> Vec<&'static str> {
+    vec![
+        "mov", "add", "adc", "sub", "sbb", "cmp", "inc", "dec", "neg", "and", "or", "xor", "test", "not", "shl", "sal", "shr", "sar", "rol", "ror", "rcl", "rcr", "mul", "imul", "div", "idiv", "aaa",
+        "aas", "daa", "das", "aam", "aad", "cbw", "cwd", "push", "pop", "pushf", "popf", "lahf", "sahf", "xlat", "xchg", "lea", "movs", "lods", "stos", "cmps", "scas", "rep", "repe", "repz",
+        "repne", "repnz", "jmp", "je", "jne", "jcxz", "jna", "loop", "loope", "loopne", "call", "ret", "int", "hlt", "nop", "stc", "clc", "cmc", "std", "cld", "sti", "cli", "ax", "bx", "cx", "dx",
+        "al", "ah", "bl", "cl", "sp", "bp", "si", "di", "cs", "ds", "es", "ss", "byte", "word", "offset", "db", "dw", "set", "def", "macro", "print", "flags", "reg", "mem", "start:", "x:", "x",
+        "f", "[", "]", "(", ")", ",", ":", "->", "<-", "{", "}", "\"", "0", "5", "0x10", "0b1", "-1", "65536", "\"ab\"", "\n", "MOV", "AX", "BYTE", "PRINT",
+    ]
+}
+
+#[derive(Clone, Copy, PartialEq, Eq, Debug)]
+enum Target {
+    Pre,
+    Data,
+    Interp,
+}
+
+/// The enumerated in-process space: a list of generators, each with a length and an indexed access.
+#[derive(Clone)]
+enum Gen {
+    /// all strings of exactly `len` characters over the alphabet
+    Strings(usize),
+    /// all sequences of exactly `len` tokens joined by a space
+    Tokens(usize),
+    /// 1-edit neighbourhood of seed `k`: for each position: delete, duplicate, substitute by each alphabet character
+    Edits(usize),
+    /// 2-edit neighbourhood of a short seed: pairs of substitutions from a small alphabet
+    Edits2(usize),
+    /// size families
+    Family(usize),
+}
+
+struct Space {
+    gens: Vec<(Gen, usize)>,
+    seeds: Vec<(String, String)>,
+    chars: Vec<char>,
+    toks: Vec<&'static str>,
+    fam: Vec<(String, String)>,
+    total: usize,
+}
+
+fn seeds() -> Vec<(String, String)> {
+    let mut v = Vec::new();
+    let mut names: Vec<String> = Vec::new();
+    if let Ok(rd) = std::fs::read_dir(format!("{}/examples", repo_dir())) {
+        for e in rd.flatten() {
+            if let Some(n) = e.file_name().to_str() {
+                if n.ends_with(".s") {
+                    names.push(n.to_string());
+                }
+            }
+        }
+    }
+    names.sort();
+    let re = regex::Regex::new(r";.*\n?").unwrap();
+    for n in names {
+        if let Ok(s) = std::fs::read_to_string(format!("{}/examples/{}", repo_dir(), n)) {
+            // the library sees the text as the driver passes it on: comments stripped
+            v.push((format!("examples/{}", n), re.replace_all(&s, "\n").to_string()));
+        }
+    }
+    for (n, s) in [
+        ("mini-data", "set 0x10\nbv: db 5\nwv: dw [3, 2]\ns: db \"hi\"\nstart:\nmov ax, word wv\nlea bx, byte s\nprint mem offset s : 2\n"),
+        ("mini-macro", "macro m(a,b) -> mov a, b inc a <-\nmacro n(q) -> m(q, 5) <-\ndef f {\nn(ax)\n}\nstart:\ncall f\nn(bx)\nprint reg\n"),
+        ("mini-mem", "start:\nmov byte es[bx, si, -2], 5\nadd word [bp, 4], 0x7fff\nrep movs byte\nshl word [0x10], cl\nint 0x21\nprint mem 0 -> 0b11\nprint mem :5\n"),
+        ("mini-jump", "start:\nl1: cmp ax, bx\njne l2\nloop l1\nl2:\njcxz l1\nhlt\n"),
+    ] {
+        v.push((n.to_string(), s.to_string()));
+    }
+    v
+}
+
+fn families(thorough: bool) -> Vec<(String, String)> {
+    let sizes: Vec<usize> = if thorough { vec![10, 100, 1000, 10_000, 100_000] } else { vec![10, 100, 1000, 10_000, 100_000] };
+    let mut v: Vec<(String, String)> = Vec::new();
+    let rep = |s: &str, n: usize| s.repeat(n);
+    for n in sizes {
+        let mut add = |name: &str, text: String| v.push((format!("{} x {}", name, n), text));
+        add("instruction lines", format!("start:\n{}", rep("inc ax\n", n)));
+        add("blank lines", format!("{}start:\nhlt\n", rep("\n", n)));
+        add("blank lines at the end", format!("start:\nhlt{}", rep("\n", n)));
+        add("spaces in a line", format!("start:\nmov ax,{} 1\n", rep(" ", n)));
+        add("decimal digits", format!("start:\nmov ax, {}\n", rep("7", n)));
+        add("zero digits", format!("start:\nmov ax, {}1\n", rep("0", n)));
+        add("hex digits", format!("start:\nmov ax, 0x{}\n", rep("f", n)));
+        add("binary digits", format!("start:\nmov ax, 0b{}\n", rep("1", n)));
+        add("negative digits", format!("start:\nmov ax, -{}\n", rep("9", n)));
+        add("db digits", format!("db {}\nstart:\n", rep("3", n)));
+        add("string length", format!("s: db \"{}\"\nstart:\nhlt\n", rep("a", n)));
+        add("dw string length", format!("s: dw \"{}\"\nstart:\nhlt\n", rep("a", n.min(30_000))));
+        add("unterminated string", format!("s: db \"{}\nstart:\nhlt\n", rep("a", n)));
+        add("open brackets", format!("start:\nmov ax, word {}\n", rep("[", n)));
+        add("bracket pairs", format!("start:\nmov ax, word {}bx{}\n", rep("[", n), rep("]", n)));
+        add("open parens", format!("start:\nm{}\n", rep("(", n)));
+        add("nested macro uses", format!("macro m(a) -> inc a <-\nstart:\n{}ax{}\n", rep("m(", n), rep(")", n)));
+        add("commas", format!("start:\nmov ax{} bx\n", rep(",", n)));
+        add("labels", {
+            let mut s = String::from("start:\n");
+            for k in 0..n {
+                s.push_str(&format!("l{}:\n", k));
+            }
+            s
+        });
+        add("jumps to one label", format!("start:\n{}end_:\n", rep("jmp end_\n", n.min(20_000))));
+        add("procedures", {
+            let mut s = String::new();
+            for k in 0..n.min(20_000) {
+                s.push_str(&format!("def p{} {{\ninc ax\n}}\n", k));
+            }
+            s.push_str("start:\ncall p0\n");
+            s
+        });
+        add("macro definitions", {
+            let mut s = String::new();
+            for k in 0..n.min(20_000) {
+                s.push_str(&format!("macro m{}(a) -> inc a <-\n", k));
+            }
+            s.push_str("start:\nm0(ax)\n");
+            s
+        });
+        add("macro chain", {
+            // m0 uses m1 uses m2 ... (depth n)
+            let d = n.min(5000);
+            let mut s = String::new();
+            for k in 0..d {
+                if k + 1 < d {
+                    s.push_str(&format!("macro m{}(a) -> m{}(a) <-\n", k, k + 1));
+                } else {
+                    s.push_str(&format!("macro m{}(a) -> inc a <-\n", k));
+                }
+            }
+            s.push_str("start:\nm0(ax)\n");
+            s
+        });
+        add("macro parameters", {
+            let k = n.min(2000);
+            let ps: Vec<String> = (0..k).map(|i| format!("p{}", i)).collect();
+            let args: Vec<String> = (0..k).map(|_| "ax".to_string()).collect();
+            format!("macro big({}) -> inc p0 <-\nstart:\nbig({})\n", ps.join(","), args.join(","))
+        });
+        // every macro use builds a parser of its own (about 7 ms): linear, but the sizes are kept small
+        add("macro uses", format!("macro m(a) -> inc a dec a <-\nstart:\n{}", rep("m(ax)\n", n.min(if thorough { 3000 } else { 300 }))));
+        add("data definitions", format!("{}start:\nhlt\n", rep("db 1\n", n.min(60_000))));
+        add("set directives", format!("{}start:\nhlt\n", rep("set 5\ndb [3]\n", n.min(50_000))));
+        add("long identifier", format!("start:\njmp {}\n{}:\n", rep("a", n), rep("a", n)));
+        // quadratic in the length of one line (known finding): capped, the scaling oracle sees it at 10^4
+        add("one long line of instructions", format!("start: {}\n", rep("inc ax ", n.min(if thorough { 30_000 } else { 10_000 }))));
+        add("comment characters", format!("start:\nhlt ;{}\n", rep(";", n)));
+        add("colons", format!("start{}\n", rep(":", n)));
+        add("print statements parsed", format!("start:\nhlt\n{}", rep("print mem 0 -> 3\n", n.min(20_000))));
+    }
+    // special shapes
+    for (name, text) in [
+        ("empty file", ""),
+        ("only a newline", "\n"),
+        ("one line without newline", "start:"),
+        ("one instruction without newline", "stc"),
+        ("no final newline", "start:\nmov ax, 5\nprint reg"),
+        ("CRLF line ends", "start:\r\nmov ax, 5\r\nprint reg\r\n"),
+        ("CR only", "start:\rmov ax, 5\rprint reg\r"),
+        ("tabs and form feeds", "start:\n\tmov\tax,\t5\n\x0cprint reg\n"),
+        ("NUL characters", "start:\nmov ax, 5\0\nprint reg\n"),
+        ("UTF-8 BOM", "\u{feff}start:\nmov ax, 5\n"),
+        ("non-ASCII identifier", "st\u{e4}rt:\nmov ax, 5\n"),
+        ("non-ASCII in string", "s: db \"h\u{e9}llo\"\nstart:\nhlt\n"),
+        ("non-ASCII before an error on the same line", "start:\nmov ax, \u{e9}\u{e9}\u{e9} @\n"),
+        ("non-ASCII in a comment before a run-time message", "start: ; \u{e9}\u{e9}\u{e9}\u{e9}\nprint reg ; \u{fc}\nint 3\n"),
+        ("wide characters", "start:\nmov ax, \u{1F600}\n"),
+        ("only comments", "; nothing\n; at all"),
+        ("only a quote", "\""),
+        ("only an open brace", "def f {"),
+        ("macro arrow only", "macro m(a) ->"),
+        ("macro without end", "macro m(a) -> inc a"),
+        ("recursive macro", "macro r(a) -> r(a) <-\nstart:\nr(ax)\n"),
+        ("mutually recursive macros", "macro p(a) -> q(a) <-\nmacro q(a) -> p(a) <-\nstart:\np(ax)\n"),
+        ("macro passing itself", "macro p(a) -> a(a) <-\nstart:\np(p)\n"),
+        ("huge array counts", "a: db [65535]\nb: db [65535]\nc: dw [65535]\nstart:\nhlt\n"),
+        ("set at the top of memory", "set 0xffff\na: db [65535]\nstart:\nmov al, byte a\n"),
+    ] {
+        v.push((name.to_string(), text.to_string()));
+    }
+    for ch in ["a", ";", "\"", "\n", " ", "(", "[", "0", ":", "\u{e9}"] {
+        v.push((format!("1 MB of {:?}", ch), ch.repeat((1 << 20) / ch.len())));
+    }
+    v
+}
+
+impl Space {
+    fn new(thorough: bool) -> Space {
+        let chars = alpha_chars();
+        let toks = tokens();
+        let seeds = seeds();
+        let fam = families(thorough);
+        let mut gens: Vec<(Gen, usize)> = Vec::new();
+        let nc = chars.len();
+        for l in 0..=3usize {
+            gens.push((Gen::Strings(l), nc.pow(l as u32)));
+        }
+        if thorough {
+            gens.push((Gen::Strings(4), nc.pow(4)));
+        }
+        let nt = toks.len();
+        for l in 1..=3usize {
+            gens.push((Gen::Tokens(l), nt.pow(l as u32)));
+        }
+        for (k, (_, s)) in seeds.iter().enumerate() {
+            let n = s.chars().count();
+            gens.push((Gen::Edits(k), n * (2 + nc) + nc));
+        }
+        // 2-edit neighbourhoods of the short seeds
+        for (k, (_, s)) in seeds.iter().enumerate() {
+            let n = s.chars().count();
+            let has_macro = s.contains("macro");
+            if (n <= 160 || (thorough && n <= 400)) && (thorough || !has_macro) {
+                gens.push((Gen::Edits2(k), n * n * 16));
+            }
+        }
+        for k in 0..fam.len() {
+            gens.push((Gen::Family(k), 1));
+        }
+        let total = gens.iter().map(|(_, n)| *n).sum();
+        Space { gens, seeds, chars, toks, fam, total }
+    }
+
+    /// the `i`-th case of the space: (description, text)
+    fn get(&self, mut i: usize) -> (String, String) {
+        for (g, n) in self.gens.iter() {
+            if i >= *n {
+                i -= *n;
+                continue;
+            }
+            return match g {
+                Gen::Strings(l) => {
+                    let mut s = String::new();
+                    let nc = self.chars.len();
+                    let mut k = i;
+                    for _ in 0..*l {
+                        s.push(self.chars[k % nc]);
+                        k /= nc;
+                    }
+                    (format!("string #{} of length {}", i, l), s)
+                }
+                Gen::Tokens(l) => {
+                    let nt = self.toks.len();
+                    let mut k = i;
+                    let mut parts = Vec::new();
+                    for _ in 0..*l {
+                        parts.push(self.toks[k % nt]);
+                        k /= nt;
+                    }
+                    (format!("token sequence #{} of length {}", i, l), parts.join(" "))
+                }
+                Gen::Edits(sd) => {
+                    let (name, seed) = &self.seeds[*sd];
+                    let cs: Vec<char> = seed.chars().collect();
+                    let nc = self.chars.len();
+                    let per = 2 + nc;
+                    let mut out: Vec<char> = cs.clone();
+                    let what;
+                    if i >= cs.len() * per {
+                        // append each alphabet character at the end
+                        let a = i - cs.len() * per;
+                        out.push(self.chars[a]);
+                        what = format!("append {:?}", self.chars[a]);
+                    } else {
+                        let pos = i / per;
+                        let op = i % per;
+                        if op == 0 {
+                            out.remove(pos);
+                            what = format!("delete position {}", pos);
+                        } else if op == 1 {
+                            out.insert(pos, cs[pos]);
+                            what = format!("duplicate position {}", pos);
+                        } else {
+                            out[pos] = self.chars[op - 2];
+                            what = format!("position {} := {:?}", pos, self.chars[op - 2]);
+                        }
+                    }
+                    (format!("1-edit of {}: {}", name, what), out.into_iter().collect())
+                }
+                Gen::Edits2(sd) => {
+                    let (name, seed) = &self.seeds[*sd];
+                    let mut cs: Vec<char> = seed.chars().collect();
+                    let n = cs.len();
+                    let small: [char; 4] = ['(', '"', '\n', '0'];
+                    let p1 = i / (n * 16);
+                    let r = i % (n * 16);
+                    let p2 = r / 16;
+                    let a = small[(r % 16) / 4];
+                    let b = small[r % 4];
+                    cs[p1] = a;
+                    cs[p2] = b;
+                    (format!("2-edit of {}: position {} := {:?}, position {} := {:?}", name, p1, a, p2, b), cs.into_iter().collect())
+                }
+                Gen::Family(k) => (format!("family: {}", self.fam[*k].0), self.fam[*k].1.clone()),
+            };
+        }
+        panic!("index out of the space");
+    }
+}
+
+thread_local! {
+    static PP: Preprocessor = Preprocessor::new();
+    static DP: DataParser = DataParser::new();
+    static IP: Interpreter = Interpreter::new();
+}
+
+/// run one text through the three library parsers; returns the panics (target, message)
+fn run_case(text: &str, vm: &mut VM) -> Vec<(Target, String)> {
+    let mut bad = Vec::new();
+    let r = catch_unwind(AssertUnwindSafe(|| {
+        PP.with(|p| {
+            let mut ctx = PreprocessorContext::default();
+            let mut out = PreprocessorOutput::default();
+            let _ = p.parse(&mut ctx, &mut out, text);
+        })
+    }));
+    if let Err(e) = r {
+        bad.push((Target::Pre, panic_msg(e)));
+    }
+    // the data loader and the interpreter take one line at a time; long texts are for the assembler
+    if text.len() <= 4096 {
+        let r = catch_unwind(AssertUnwindSafe(|| {
+            DP.with(|p| {
+                let mut ctr = 0usize;
+                let _ = p.parse(vm, &mut ctr, text);
+            })
+        }));
+        if let Err(e) = r {
+            bad.push((Target::Data, panic_msg(e)));
+        }
+        let r = catch_unwind(AssertUnwindSafe(|| {
+            IP.with(|p| {
+                let mut ictx = lib::InterpreterContext { fn_map: Default::default(), label_map: Default::default(), call_stack: Vec::new() };
+                ictx.fn_map.insert("f".into(), 0);
+                ictx.label_map.insert("x".into(), lib::Label::new(lib::LabelType::CODE, 0, 0));
+                let _ = p.parse(0, vm, &mut ictx, text);
+            })
+        }));
+        if let Err(e) = r {
+            bad.push((Target::Interp, panic_msg(e)));
+        }
+    }
+    bad
+}
+
+/// child process: `verif C15-chunk <tier> <lo> <hi>` — prints one JSON line per failing case, then DONE
+pub fn chunk_main(args: &[String]) -> i32 {
+    let thorough = args[0] == "thorough";
+    if args[1] == "families" {
+        let sp = Space::new(thorough);
+        println!("{} {}", sp.total - sp.fam.len(), sp.total);
+        let mut lo = 0;
+        for (g, n) in sp.gens.iter() {
+            if !matches!(g, Gen::Family(_)) {
+                let name = match g {
+                    Gen::Strings(l) => format!("strings {}", l),
+                    Gen::Tokens(l) => format!("tokens {}", l),
+                    Gen::Edits(k) => format!("edits {}", sp.seeds[*k].0),
+                    Gen::Edits2(k) => format!("edits2 {}", sp.seeds[*k].0),
+                    _ => String::new(),
+                };
+                eprintln!("GEN {} {} {}", lo, n, name);
+            }
+            lo += n;
+        }
+        return 0;
+    }
+    let lo: usize = args[1].parse().unwrap();
+    let hi: usize = args[2].parse().unwrap();
+    let sp = Space::new(thorough);
+    let mut vm = VM::new();
+    let mut n = 0u64;
+    for i in lo..hi.min(sp.total) {
+        let (what, text) = sp.get(i);
+        let t0 = Instant::now();
+        let bad = run_case(&text, &mut vm);
+        let ms = t0.elapsed().as_millis();
+        if ms > 20 && std::env::var("VERIF_DEBUG").is_ok() {
+            eprintln!("DEBUG {} ms  {} bytes  {}", ms, text.len(), what);
+        }
+        for (t, msg) in bad {
+            println!("{}", json!({"i": i, "what": what, "target": format!("{:?}", t), "panic": msg, "len": text.len()}));
+        }
+        // timing of the family inputs is evaluated by the parent (scaling between sizes)
+        if what.starts_with("family") {
+            println!("{}", json!({"i": i, "what": what, "target": "timing", "ms": ms as u64, "len": text.len()}));
+        } else if ms as usize > 5000 + text.len() / 25 {
+            println!("{}", json!({"i": i, "what": what, "target": "time", "panic": format!("{} ms for {} bytes", ms, text.len()), "len": text.len()}));
+        }
+        n += 1;
+        // a DataParser / Interpreter call may have scribbled on the machine; reset cheaply now and then
+        if n % 4096 == 0 {
+            vm = VM::new();
+        }
+    }
+    println!("DONE {}", n);
+    0
+}
+
+static TIMINGS: std::sync::Mutex<Vec<(String, usize, u64)>> = std::sync::Mutex::new(Vec::new());
+
+/// the class of a case: generator kind, or the family name without its size
+fn site_of(what: &str) -> String {
+    if let Some(f) = what.strip_prefix("family: ") {
+        return format!("family {}", f.split(" x ").next().unwrap_or(f));
+    }
+    what.split(':').next().unwrap_or("").split('#').next().unwrap_or("").trim().to_string()
+}
+
+/// scaling oracle: within one family, going to the next size must not raise the cost per byte by more
+/// than a factor 5 (quadratic behaviour raises it by the size ratio, 10), once the time is measurable
+fn scaling_violations(name_len_ms: &[(String, usize, u64)]) -> Vec<(String, String)> {
+    let mut by: std::collections::BTreeMap<String, Vec<(usize, u64, String)>> = Default::default();
+    for (what, len, ms) in name_len_ms {
+        by.entry(site_of(what)).or_default().push((*len, *ms, what.clone()));
+    }
+    let mut out = Vec::new();
+    for (fam, mut v) in by {
+        v.sort();
+        for w in v.windows(2) {
+            let (l1, m1, _) = &w[0];
+            let (l2, m2, what2) = &w[1];
+            if *l2 < l1 * 3 || *m2 < 1500 {
+                continue;
+            }
+            let r1 = (*m1).max(3) as f64 / *l1 as f64;
+            let r2 = *m2 as f64 / *l2 as f64;
+            if r2 > 5.0 * r1 {
+                out.push((fam.clone(), format!("{}: {} ms for {} bytes, after {} ms for {} bytes: the cost per byte grew {:.1}-fold", what2, m2, l2, m1, l1, r2 / r1)));
+            }
+        }
+        if let Some((l, m, what)) = v.iter().find(|(_, m, _)| *m > 120_000) {
+            out.push((fam.clone(), format!("{}: {} ms for {} bytes", what, m, l)));
+        }
+    }
+    out
+}
+
+struct ChunkOut {
+    lines: Vec<serde_json::Value>,
+    done: bool,
+    abnormal: Option<String>,
+}
+
+fn spawn_chunk(tier: &str, lo: usize, hi: usize, timeout_s: u64) -> ChunkOut {
+    let exe = std::env::current_exe().expect("exe");
+    let mut child = Command::new(exe).arg("C15-chunk").arg(tier).arg(lo.to_string()).arg(hi.to_string()).stdin(Stdio::null()).stdout(Stdio::piped()).stderr(Stdio::null()).spawn().expect("spawn chunk");
+    let mut so = child.stdout.take().unwrap();
+    let (tx, rx) = std::sync::mpsc::channel();
+    let h = std::thread::spawn(move || {
+        let mut s = String::new();
+        let _ = so.read_to_string(&mut s);
+        let _ = tx.send(s);
+    });
+    let deadline = Instant::now() + Duration::from_secs(timeout_s);
+    let mut timed_out = false;
+    let status = loop {
+        match child.try_wait() {
+            Ok(Some(st)) => break Some(st),
+            Ok(None) => {
+                if Instant::now() > deadline {
+                    let _ = child.kill();
+                    let _ = child.wait();
+                    timed_out = true;
+                    break None;
+                }
+                std::thread::sleep(Duration::from_millis(20));
+            }
+            Err(_) => break None,
+        }
+    };
+    let text = rx.recv_timeout(Duration::from_secs(5)).unwrap_or_default();
+    let _ = h.join();
+    let mut lines = Vec::new();
+    let mut done = false;
+    for l in text.lines() {
+        if l.starts_with("DONE") {
+            done = true;
+        } else if let Ok(v) = serde_json::from_str::<serde_json::Value>(l) {
+            lines.push(v);
+        }
+    }
+    let abnormal = if timed_out {
+        Some(format!("no answer within {} s", timeout_s))
+    } else {
+        match status {
+            Some(st) if st.success() && done => None,
+            Some(st) => {
+                use std::os::unix::process::ExitStatusExt;
+                Some(match st.signal() {
+                    Some(sig) => format!("killed by signal {} ({})", sig, if sig == 11 || sig == 6 { "stack overflow / abort" } else { "?" }),
+                    None => format!("exit status {:?}", st.code()),
+                })
+            }
+            None => Some("no status".into()),
+        }
+    };
+    ChunkOut { lines, done, abnormal }
+}
+
+/// run a range in a child; on abnormal end bisect down to the culprit case
+fn explore_range(rep: &Reporter, sp: &Space, tier: &str, lo: usize, hi: usize, counted: &AtomicU64) {
+    let out = spawn_chunk(tier, lo, hi, 300);
+    for v in out.lines.iter() {
+        let i = v["i"].as_u64().unwrap_or(0) as usize;
+        let (what, text) = sp.get(i);
+        let target = v["target"].as_str().unwrap_or("?").to_string();
+        if target == "timing" {
+            TIMINGS.lock().unwrap().push((what.clone(), text.len(), v["ms"].as_u64().unwrap_or(0)));
+            continue;
+        }
+        let site = format!("{} / {}", target, site_of(&what));
+        let got = format!("{}: {}", what, v["panic"].as_str().unwrap_or(""));
+        if rep.absorbed_by(&site, "panic", &[], None, &got) {
+            continue;
+        }
+        rep.report(Viol { site, field: if target == "time" { "time".into() } else { "panic".into() }, vars: vec![], got_val: None, expected: "a result or a diagnostic".into(), got, case: json!({"text": clip_text(&text, 4000), "index": i, "what": what}), weight: text.len() as u64 });
+    }
+    match out.abnormal {
+        None => {
+            counted.fetch_add((hi - lo) as u64, Ordering::Relaxed);
+        }
+        Some(a) => {
+            if hi - lo <= 1 {
+                let (what, text) = sp.get(lo);
+                let site = format!("abort / {}", site_of(&what));
+                counted.fetch_add(1, Ordering::Relaxed);
+                rep.report(Viol { site, field: "abort".into(), vars: vec![], got_val: None, expected: "a result or a diagnostic".into(), got: format!("{}: the process handling this text was {}", what, a), case: json!({"text": clip_text(&text, 4000), "index": lo, "what": what}), weight: text.len() as u64 });
+            } else {
+                let mid = lo + (hi - lo) / 2;
+                explore_range(rep, sp, tier, lo, mid, counted);
+                explore_range(rep, sp, tier, mid, hi, counted);
+            }
+        }
+    }
+}
+
+fn cli_verdict(rep: &Reporter, c: &Counters, site: &str, what: &str, src: &[u8], stdin: &str, interpreted: bool, timeout_ms: u64, rss_cap_kb: u64) -> CliOut {
+    let mut o = CliOpts::default();
+    o.interpreted = interpreted;
+    o.timeout_ms = timeout_ms;
+    o.cap = 8 << 20;
+    let out = run_cli_bytes(src, stdin.as_bytes(), &o);
+    c.add_exec(1);
+    let mut bad: Option<(String, String)> = None;
+    if let Some(a) = out.abnormal() {
+        // a program that loops by itself is not the emulator hanging: ask the replica loop
+        let mut looping = false;
+        if out.timed_out || out.capped {
+            if let Ok(text) = std::str::from_utf8(src) {
+                let re = regex::Regex::new(r";.*\n?").unwrap();
+                let stripped = re.replace_all(text, "\n").to_string();
+                if let Ok(asm) = assemble(&stripped) {
+                    let mut vm = VM::new();
+                    if let Ok(rr) = run_program(&asm, &mut vm, 20_000) {
+                        looping = rr.stop == StopReason::Horizon;
+                    }
+                }
+            }
+        }
+        if !looping {
+            bad = Some(("abort".into(), format!("{}: {}", a, clip_text(&out.summary(), 700))));
+        }
+    } else if out.max_rss_kb > rss_cap_kb {
+        bad = Some(("memory".into(), format!("peak resident set {} KB for {} bytes of input (ceiling {} KB)", out.max_rss_kb, src.len(), rss_cap_kb)));
+    }
+    c.outcome(&format!("cli status {:?}", out.status));
+    if let Some((field, got)) = bad {
+        let got = format!("{}: {}", what, got);
+        if !rep.absorbed_by(site, &field, &[], None, &got) {
+            let src_txt = String::from_utf8_lossy(src).to_string();
+            rep.report(Viol { site: site.to_string(), field, vars: vec![], got_val: None, expected: "exit status 0 or 1 within the watchdog, with a result or a diagnostic".into(), got, case: json!({"src": clip_text(&src_txt, 4000), "src_len": src.len(), "stdin": stdin, "interpreted": interpreted, "what": what}), weight: src.len() as u64 });
+        }
+    }
+    out
+}
+
+pub fn run(tier: &Tier) -> i32 {
+    let rep_o = Reporter::new("C15", tier.name());
+    let c_o = Counters::default();
+    let rep = &rep_o;
+    let c = &c_o;
+    ensure_bin();
+    let sp = Space::new(tier.thorough);
+
+    // ---------------- in-process space, in child processes
+    let counted = AtomicU64::new(0);
+    let chunk = 6_000usize;
+    let mut ranges: Vec<(usize, usize)> = Vec::new();
+    {
+        // cheap cases in big chunks, the family cases (last generators) one per chunk
+        let fam_start = sp.total - sp.fam.len();
+        let mut lo = 0;
+        while lo < fam_start {
+            let hi = (lo + chunk).min(fam_start);
+            ranges.push((lo, hi));
+            lo = hi;
+        }
+        for i in fam_start..sp.total {
+            ranges.push((i, i + 1));
+        }
+    }
+    ranges.par_iter().for_each(|(lo, hi)| explore_range(rep, &sp, tier.name(), *lo, *hi, &counted));
+    c.add_exec(counted.load(Ordering::Relaxed));
+    {
+        let t = TIMINGS.lock().unwrap().clone();
+        for (fam, got) in scaling_violations(&t) {
+            let site = format!("time / {}", fam);
+            if !rep.absorbed_by(&site, "time", &[], None, &got) {
+                rep.report(Viol { site, field: "time".into(), vars: vec![], got_val: None, expected: "time proportional to the input: the cost per byte does not grow more than 5-fold from one size to the next".into(), got, case: json!({"family": fam}), weight: 0 });
+            }
+        }
+    }
+    let cli_timings: std::sync::Mutex<Vec<(String, usize, u64)>> = std::sync::Mutex::new(Vec::new());
+
+    eprintln!("phase in-process done at {:?}", rep.started.elapsed());
+    // ---------------- the print reader: prompt sessions of the real binary
+    let prompt_lines = AtomicU64::new(0);
+    {
+        let mut all: Vec<String> = Vec::new();
+        let nc = sp.chars.len();
+        for l in 0..=3usize {
+            for i in 0..nc.pow(l as u32) {
+                let mut s = String::new();
+                let mut k = i;
+                for _ in 0..l {
+                    s.push(sp.chars[k % nc]);
+                    k /= nc;
+                }
+                // a line is a line: newlines inside would split it, NUL is kept
+                if s.contains('\n') {
+                    continue;
+                }
+                // n / q would end the session early
+                let t = s.trim().to_ascii_lowercase();
+                if t == "n" || t == "q" {
+                    continue;
+                }
+                all.push(s);
+            }
+        }
+        // print commands with every short suffix and the token sequences that start with print
+        let toks = &sp.toks;
+        for a in toks.iter() {
+            for b in toks.iter() {
+                if a.contains('\n') || b.contains('\n') {
+                    continue;
+                }
+                all.push(format!("print {} {}", a, b));
+                all.push(format!("print mem {} {}", a, b));
+            }
+        }
+        for n in [10usize, 100, 1000, 10_000, 100_000] {
+            all.push(format!("print mem {} -> 5", "9".repeat(n)));
+            all.push(format!("print mem 0 : 0x{}", "f".repeat(n)));
+            all.push(format!("print mem :{}", " ".repeat(n)));
+            all.push("print ".repeat(n));
+            all.push(format!("print mem 0b{} -> 1", "1".repeat(n)));
+        }
+        let chunks: Vec<&[String]> = all.chunks(4000).collect();
+        chunks.par_iter().for_each(|ch| {
+            let mut stdin = String::new();
+            for l in ch.iter() {
+                stdin.push_str(l);
+                stdin.push('\n');
+            }
+            stdin.push_str("n\n");
+            let out = cli_verdict(rep, c, "print reader / prompt session", &format!("{} lines starting with {:?}", ch.len(), ch[0]), b"start:\nmov ax, 5\nint 3\nprint reg\n", &stdin, false, 60_000, 400_000);
+            prompt_lines.fetch_add(ch.len() as u64, Ordering::Relaxed);
+            // the session must have reached the end: the program's print after the prompt is there
+            if out.abnormal().is_none() && !out.out().contains("Output of line 4") {
+                rep.report(Viol { site: "print reader / prompt session".into(), field: "abort".into(), vars: vec![], got_val: None, expected: "the session continues after every line and the program finishes".into(), got: clip_text(&out.summary(), 500), case: json!({"first_line": ch[0], "lines": ch.len()}), weight: 0 });
+            }
+        });
+    }
+
+    eprintln!("phase prompt done at {:?}", rep.started.elapsed());
+    // ---------------- source files through the binary
+    let files = AtomicU64::new(0);
+    {
+        // (1) all byte strings of length <= 1, length 2 over a 64-byte subset (thorough: all 65536)
+        let mut bytes_cases: Vec<Vec<u8>> = vec![vec![]];
+        for b in 0..=255u8 {
+            bytes_cases.push(vec![b]);
+        }
+        let subset: Vec<u8> = if tier.thorough { (0..=255u8).collect() } else { b"am:s\n\r\t \"[](),;-><_019x{}\0@\x7f\x80\xc3\xa9\xff\xfe\xef\xbb\xbfqn.#$%&'*+/=?\\^`|~AZ".to_vec() };
+        for a in subset.iter() {
+            for b in subset.iter() {
+                bytes_cases.push(vec![*a, *b]);
+            }
+        }
+        bytes_cases.par_iter().for_each(|b| {
+            cli_verdict(rep, c, "source file / short byte string", &format!("bytes {:02X?}", b), b, "", false, 6000, 400_000);
+            files.fetch_add(1, Ordering::Relaxed);
+        });
+        eprintln!("phase bytes done at {:?}", rep.started.elapsed());
+        // (2) the size families and special shapes, plain and -i with a closed stdin
+        let fam: Vec<(usize, bool)> = (0..sp.fam.len()).flat_map(|k| [(k, false), (k, true)]).collect();
+        fam.par_iter().for_each(|(k, interp)| {
+            let (name, text) = &sp.fam[*k];
+            // ceilings: 20 s and 1.5 GB for the largest inputs; 6 s / 400 MB below 100 KB
+            let big = text.len() > 100_000;
+            let o = cli_verdict(rep, c, &format!("source file / {}", name.split(" x ").next().unwrap_or(name)), name, text.as_bytes(), "", *interp, if big { 30_000 } else { 10_000 }, if big { 1_500_000 } else { 400_000 });
+            if o.wall_ms > 1500 {
+                eprintln!("SLOW {} ms {} interp={} timeout={}", o.wall_ms, name, interp, o.timed_out);
+            }
+            if !*interp && !o.timed_out {
+                cli_timings.lock().unwrap().push((format!("family: {}", name), text.len(), o.wall_ms));
+            }
+            files.fetch_add(1, Ordering::Relaxed);
+        });
+        for (fam, got) in scaling_violations(&cli_timings.lock().unwrap()) {
+            let site = format!("source file time / {}", fam);
+            if !rep.absorbed_by(&site, "time", &[], None, &got) {
+                rep.report(Viol { site, field: "time".into(), vars: vec![], got_val: None, expected: "time proportional to the input".into(), got, case: json!({"family": fam}), weight: 0 });
+            }
+        }
+        eprintln!("phase families done at {:?}", rep.started.elapsed());
+        // (3) invalid UTF-8 and binary garbage
+        let mut garbage: Vec<(String, Vec<u8>)> = Vec::new();
+        garbage.push(("lone continuation bytes".into(), vec![0x80; 100]));
+        garbage.push(("truncated multi-byte sequence at the end".into(), b"start:\nmov ax, 5\n\xe2\x82".to_vec()));
+        garbage.push(("overlong encoding".into(), b"start:\n\xc0\xaf\n".to_vec()));
+        garbage.push(("all byte values".into(), (0..=255u8).collect()));
+        garbage.push(("all byte values, 64 times".into(), (0..16384usize).map(|i| (i % 256) as u8).collect()));
+        garbage.push(("UTF-16 text".into(), "start:\nmov ax, 5\n".encode_utf16().flat_map(|u| u.to_le_bytes()).collect()));
+        garbage.par_iter().for_each(|(name, b)| {
+            cli_verdict(rep, c, "source file / invalid UTF-8", name, b, "", false, 6000, 400_000);
+            files.fetch_add(1, Ordering::Relaxed);
+        });
+        // (4) 1-edit neighbourhoods of the straight-line seeds through the binary: deletion and three
+        //     substitutions at every position
+        let cli_seeds: Vec<(String, String)> = vec![
+            ("cli-straight".into(), "bv: db 5\nstart:\nmov ax, 5 ; five\nadd al, byte bv\nprint reg\nint 3\nprint mem 0 -> 3".into()),
+            ("cli-macro".into(), "macro m(a) -> inc a <-\ndef f {\nm(bx)\n}\nstart:\ncall f\nprint flags\n".into()),
+        ];
+        let mut edits: Vec<(String, Vec<u8>)> = Vec::new();
+        for (name, s) in cli_seeds.iter() {
+            let cs: Vec<char> = s.chars().collect();
+            for pos in 0..cs.len() {
+                let mut d = cs.clone();
+                d.remove(pos);
+                edits.push((format!("{}: delete position {}", name, pos), d.iter().collect::<String>().into_bytes()));
+                for ch in if tier.thorough { vec!['@', '"', '(', '\n', '0', ';', ':', '[', '\u{e9}'] } else { vec!['@', '"', '(', '\n'] } {
+                    let mut d = cs.clone();
+                    d[pos] = ch;
+                    edits.push((format!("{}: position {} := {:?}", name, pos, ch), d.iter().collect::<String>().into_bytes()));
+                }
+            }
+        }
+        edits.par_iter().for_each(|(what, b)| {
+            cli_verdict(rep, c, "source file / 1-edit of a seed", what, b, "n\nn\n", false, 6000, 400_000);
+            files.fetch_add(1, Ordering::Relaxed);
+        });
+        eprintln!("phase edits done at {:?}", rep.started.elapsed());
+    }
+
+    for k in [0usize, sp.total / 3, sp.total / 2, sp.total - 40, sp.total - 1] {
+        let (what, text) = sp.get(k.min(sp.total - 1));
+        c.sample(json!({"index": k, "what": what, "text": clip_text(&text, 200)}));
+    }
+    c.states.fetch_add(sp.total as u64, Ordering::Relaxed);
+    if (counted.load(Ordering::Relaxed) as usize) < sp.total && rep.unknown_count() == 0 {
+        eprintln!("MACHINERY: C15 covered {} of {} in-process cases", counted.load(Ordering::Relaxed), sp.total);
+        return 2;
+    }
+    let mut cov = Coverage::default();
+    cov.exhaustive = true;
+    let gen_desc: Vec<serde_json::Value> = sp
+        .gens
+        .iter()
+        .filter(|(g, _)| !matches!(g, Gen::Family(_)))
+        .map(|(g, n)| match g {
+            Gen::Strings(l) => json!({"all strings of length": l, "cases": n}),
+            Gen::Tokens(l) => json!({"all token sequences of length": l, "cases": n}),
+            Gen::Edits(k) => json!({"1-edit neighbourhood of": sp.seeds[*k].0, "cases": n}),
+            Gen::Edits2(k) => json!({"2-edit neighbourhood (4-character alphabet) of": sp.seeds[*k].0, "cases": n}),
+            Gen::Family(_) => json!(null),
+        })
+        .collect();
+    cov.rule = format!("in-process (each case to the real Preprocessor, and if at most 4 KB also as one line to the real DataParser and Interpreter; executed in child processes of the harness, an abnormal end is bisected to the single culprit): ALL strings of length <= {} over a {}-character alphabet (letters, digits, quotes, brackets, parentheses, punctuation, space, newline, NUL, tab, two non-ASCII characters), ALL sequences of <= 3 tokens over {} terminals of the source grammar, the COMPLETE 1-edit neighbourhood (delete, duplicate, substitute by each alphabet character, append) of {} seeds (the repository's examples and 4 mini programs), 2-edit neighbourhoods of the short seeds, and {} pathological inputs (33 families at sizes 10..10^5: line counts, blank lines, digit counts in every radix, string lengths, bracket / parenthesis nesting, nested macro uses, macro chains, labels, procedures, macro definitions, parameters; empty file, no final newline, CR / CRLF, NUL, BOM, non-ASCII, recursive macros, 1 MB of one character). Print reader: every string of length <= 3 and every 'print a b' / 'print mem a b' over the token alphabet typed as a line of a prompt session of the real binary, plus lines with up to 10^5 digits. Source files through the real binary: all byte strings of length <= 1, length 2 over a {}-byte subset, every family input plain and with -i (closed stdin), invalid UTF-8, and deletion + {} substitutions at every position of two seeds. Verdict: exit status 0/1, no signal, no watchdog expiry (unless the replica loop shows that the mutated program itself does not halt), peak memory and time under coarse ceilings", if tier.thorough { 4 } else { 3 }, sp.chars.len(), sp.toks.len(), sp.seeds.len(), sp.fam.len(), if tier.thorough { 256 } else { 70 }, if tier.thorough { 9 } else { 4 });
+    cov.bounds = json!({"in_process_cases": sp.total, "in_process_cases_completed": counted.load(Ordering::Relaxed), "generators": gen_desc, "family_inputs": sp.fam.len(), "prompt_lines": prompt_lines.load(Ordering::Relaxed), "source_files_through_the_binary": files.load(Ordering::Relaxed), "tier": tier.name()});
+    cov.assumptions = common_assumptions();
+    cov.assumptions.push("'time and memory proportional to the input' is checked only as absolute ceilings on finite families (binary: 10 s / 400 MB below 100 KB of input, 30 s / 1.5 GB above; in-process 120 s) and, within each size family, as a scaling test: from one size to the next the cost per byte must not grow more than 5-fold once the time exceeds 1.5 s; no asymptotic claim".into());
+    cov.assumptions.push("a watchdog expiry of the binary counts only if the replica run loop (real Interpreter, 20 000 steps) shows that the program itself halts".into());
+    cov.cli_runs = CLI_RUNS.load(Ordering::Relaxed);
+    cov.distinct_nontrivial = sp.total as u64;
+    let cov = finish_cov(c, cov);
+    rep.finish(cov)
 }
